@@ -229,6 +229,7 @@ type faultCase struct {
 	Sink    string          `json:"sink,omitempty"`   // dir-at:<rel> | readonly
 	Resume  bool            `json:"resume,omitempty"`
 	Hash    string          `json:"hash,omitempty"` // the sender's HashAlg option ("" = default)
+	Retry   bool            `json:"retry,omitempty"` // after the faulted run: the ordinary retry into the same output directory (resume on, no fault); judged is the retry
 }
 
 var faultTree = []xfer.FileSpec{{Rel: "a.bin", Size: 20}, {Rel: "sub/b.bin", Size: 9}, {Rel: "sub/empty", Size: 0}}
@@ -329,6 +330,8 @@ func XferFaults(args []string) {
 				cases = append(cases, faultCase{Name: "source", Streams: ns, Mode: "mock", Source: k + f})
 			}
 			cases = append(cases, faultCase{Name: "sink", Streams: ns, Mode: "mock", Sink: "dir-at:" + f}, faultCase{Name: "sink", Streams: ns, Mode: "vquic", Sink: "dir-at:" + f})
+			// the output path is a link to a device that swallows every write and cannot be given a length
+			cases = append(cases, faultCase{Name: "sink", Streams: ns, Mode: "mock", Sink: "devnull-at:" + f}, faultCase{Name: "sink", Streams: ns, Mode: "vquic", Sink: "devnull-at:" + f, Resume: true})
 		}
 		// a regular file where a directory of the tree has to be created
 		for _, d := range faultDirTargets {
@@ -341,6 +344,16 @@ func XferFaults(args []string) {
 	for _, h := range []string{"none", "xxhash64", "crc32c"} {
 		for frame := 0; frame < 5; frame++ {
 			cases = append(cases, faultCase{Name: "flip", Streams: 1, Mode: "mock", Hash: h, Flip: &vnet.FlipSpec{Stream: 1, Dir: vnet.A, Part: "payload", Frame: frame, Offset: frame % faultChunk, Bit: uint(frame % 8)}})
+		}
+	}
+	// a damaged chunk fails the run; the user tries again (resume is always on in the CLI): whatever the failed run left
+	// on disk and in its metadata, the retry must not report success over a different tree
+	for st := 1; st <= 2; st++ {
+		for frame := 0; frame < 4; frame++ {
+			for _, mode := range []string{"mock", "vquic"} {
+				cases = append(cases, faultCase{Name: "flip-then-retry", Streams: 2, Mode: mode, Resume: true, Retry: true,
+					Flip: &vnet.FlipSpec{Stream: st, Dir: vnet.A, Part: "payload", Frame: frame, Offset: frame % faultChunk, Bit: uint(frame % 8)}})
+			}
 		}
 	}
 	if *onlyName != "" {
@@ -408,7 +421,7 @@ func XferFaults(args []string) {
 		case out.RecvOK && !out.TreeEqual:
 			outcomes["receiver_false_success"]++
 			res.AddViolation(map[string]any{"kind": "receiver_reports_success_with_wrong_tree", "fault": c.Name}, replay)
-		case out.SendOK && (okFiles < files || !out.TreeEqual) && c.Name != "sink-after":
+		case out.SendOK && ((okFiles < files && !c.Retry) || !out.TreeEqual) && c.Name != "sink-after":
 			outcomes["sender_false_success"]++
 			res.AddViolation(map[string]any{"kind": "sender_reports_success_without_confirmation", "fault": c.Name}, replay)
 		case out.SendOK && out.RecvOK:
@@ -436,12 +449,20 @@ func runFaultCase(base string, c faultCase, seed int64, wd time.Duration, tap fu
 	dir, _ := os.MkdirTemp(base, "case-")
 	defer os.RemoveAll(dir)
 	src := filepath.Join(dir, "src", "payload")
-	if err := xfer.MakeTree(src, faultTree, seed); err != nil {
+	tree := faultTree
+	if c.Retry {
+		// one file of many chunks, so that chunks behind the damaged one are complete when the run fails
+		tree = []xfer.FileSpec{{Rel: "big.bin", Size: 12*faultChunk + 3}, {Rel: "sub/b.bin", Size: 9}}
+	}
+	if err := xfer.MakeTree(src, tree, seed); err != nil {
 		panic(err)
 	}
 	outDir := filepath.Join(dir, "out")
 	cfg := xfer.Config{Transport: c.Mode, Conns: 1, Streams: c.Streams, ChunkSize: faultChunk, Seed: seed, Watchdog: wd,
 		Fault: c.Fault, Flip: c.Flip, CancelSide: c.Cancel, CancelAfter: c.After, Resume: c.Resume, SenderHash: c.Hash, Tap: tap}
+	if c.Retry {
+		cfg.SmallBelow = faultChunk // every file of more than one chunk is spread over the streams: chunks of one file arrive in any order
+	}
 	if c.Source != "" {
 		parts := strings.SplitN(c.Source, ":", 2)
 		target := filepath.Join(src, filepath.FromSlash(parts[1]))
@@ -470,6 +491,10 @@ func runFaultCase(base string, c faultCase, seed int64, wd time.Duration, tap fu
 		os.MkdirAll(filepath.Join(outDir, "payload"), 0755)
 		if strings.HasPrefix(c.Sink, "dir-at:") {
 			os.MkdirAll(filepath.Join(outDir, "payload", filepath.FromSlash(strings.TrimPrefix(c.Sink, "dir-at:"))), 0755)
+		} else if strings.HasPrefix(c.Sink, "devnull-at:") {
+			p := filepath.Join(outDir, "payload", filepath.FromSlash(strings.TrimPrefix(c.Sink, "devnull-at:")))
+			os.MkdirAll(filepath.Dir(p), 0755)
+			os.Symlink("/dev/null", p)
 		} else if strings.HasPrefix(c.Sink, "file-at:") {
 			p := filepath.Join(outDir, "payload", filepath.FromSlash(strings.TrimPrefix(c.Sink, "file-at:")))
 			os.MkdirAll(filepath.Dir(p), 0755)
@@ -483,6 +508,22 @@ func runFaultCase(base string, c faultCase, seed int64, wd time.Duration, tap fu
 	out, err := xfer.Run(cfg, src, outDir)
 	if err != nil {
 		out.SendErr += " harness:" + err.Error()
+	}
+	if c.Retry && os.Getenv("VERIF_DEBUG") != "" && out.SendOK && out.RecvOK {
+		fmt.Fprintf(os.Stderr, "first run succeeded: flip=%+v fired=%v\n", *c.Flip, out.FaultFired)
+	}
+	if c.Retry && err == nil && !(out.SendOK && out.RecvOK) {
+		cfg2 := cfg
+		cfg2.Fault, cfg2.Flip, cfg2.CancelSide, cfg2.Tap, cfg2.Resume = nil, nil, "", nil, true
+		fired := out.FaultFired
+		if os.Getenv("VERIF_DEBUG") != "" {
+			fmt.Fprintf(os.Stderr, "first run: flip=%+v fired=%v sendErr=%q recvErr=%q\n", *c.Flip, fired, trunc(out.SendErr), trunc(out.RecvErr))
+		}
+		out, err = xfer.Run(cfg2, src, outDir)
+		out.FaultFired = fired
+		if err != nil {
+			out.SendErr += " harness:" + err.Error()
+		}
 	}
 	return out
 }
